@@ -422,6 +422,16 @@ func run(c *core.Case) {
 	okOps := 0
 	for _, rec := range flat {
 		els := found[rec.Marker]
+		if rec.invalid {
+			c.Count("invalid_argument_calls", 1)
+			if rec.Err == "" {
+				c.Violate("wire:invalid-argument:accepted:"+rec.Form, "%s with invalid arguments returned nil", rec.Form)
+			}
+			if len(els) != 0 {
+				c.Violate("wire:invalid-argument:written:"+rec.Form, "%s failed (%s) but something carrying its marker reached the wire: %s", rec.Form, rec.Err, trunc(els[0].String()))
+			}
+			continue
+		}
 		if rec.Err != "" {
 			c.Count("calls_failed", 1)
 			if rec.Err == "panic" {
@@ -515,7 +525,7 @@ func trunc(s string) string {
 
 // Prop returns the C05 check.
 func Prop() *core.Prop {
-	req := []string{"histories", "calls_overlapping_another_actor", "elements_spanning_several_writes", "auto_replies", "wire_stanzas"}
+	req := []string{"histories", "invalid_argument_calls", "calls_overlapping_another_actor", "elements_spanning_several_writes", "auto_replies", "wire_stanzas"}
 	for _, e := range []string{"Send", "SendElement", "Encode", "EncodeElement", "TokenWriter", "HandlerReply",
 		"SendIQ", "SendIQElement", "EncodeIQ", "EncodeIQElement", "UnmarshalIQ", "UnmarshalIQElement", "IterIQ", "IterIQElement",
 		"SendMessage", "SendMessageElement", "EncodeMessage", "EncodeMessageElement",
